@@ -96,8 +96,121 @@ func collect(repo string) (events, writes []site, err error) {
 	return
 }
 
+// acquireSite: a function that takes transitionMutex. waits = it does so in the shape
+//
+//	if !<env>.transitionMutex.TryLock() { …; <env>.transitionMutex.Lock(); … }
+//	defer <env>.transitionMutex.Unlock()
+//
+// as a top-level statement pair of the function body, where the if has no init and no else, its body contains
+// no way out other than falling through to the statement after it (no return, goto, break, continue, panic or
+// os.Exit, no function literal, no nested branching around the Lock) — a caller that finds the mutex busy
+// ALWAYS queues for it and is carried out afterwards, whoever holds it — and nothing else in the function touches
+// the mutex.
+type acquireSite struct {
+	fn    string
+	waits bool
+}
+
+func isMutexCall(fset *token.FileSet, e ast.Expr, method string) bool {
+	ce, ok := e.(*ast.CallExpr)
+	return ok && len(ce.Args) == 0 && strings.HasSuffix(exprString(fset, ce.Fun), "transitionMutex."+method)
+}
+
+func acquireShape(fset *token.FileSet, body *ast.BlockStmt) bool {
+	uses := 0
+	ast.Inspect(body, func(n ast.Node) bool {
+		if se, ok := n.(*ast.SelectorExpr); ok && se.Sel.Name == "transitionMutex" {
+			uses++
+		}
+		return true
+	})
+	for i, st := range body.List {
+		is, ok := st.(*ast.IfStmt)
+		if !ok {
+			continue
+		}
+		un, ok := is.Cond.(*ast.UnaryExpr)
+		if !ok || un.Op != token.NOT || !isMutexCall(fset, un.X, "TryLock") {
+			continue
+		}
+		if is.Init != nil || is.Else != nil || i+1 >= len(body.List) {
+			return false
+		}
+		ds, ok := body.List[i+1].(*ast.DeferStmt)
+		if !ok || !isMutexCall(fset, ds.Call, "Unlock") {
+			return false
+		}
+		locks := 0
+		for _, inner := range is.Body.List {
+			es, ok := inner.(*ast.ExprStmt)
+			if !ok {
+				return false // only plain call statements (logging, Lock) in there
+			}
+			if isMutexCall(fset, es.X, "Lock") {
+				locks++
+			}
+			escape := false
+			ast.Inspect(es, func(n ast.Node) bool {
+				switch x := n.(type) {
+				case *ast.FuncLit:
+					escape = true
+				case *ast.CallExpr:
+					if f := exprString(fset, x.Fun); f == "panic" || strings.HasSuffix(f, ".Exit") || strings.HasSuffix(f, ".Fatal") || strings.HasSuffix(f, ".Fatalf") || strings.HasSuffix(f, ".Panic") || strings.HasSuffix(f, ".Panicf") || strings.HasSuffix(f, ".Goexit") {
+						escape = true
+					}
+				}
+				return true
+			})
+			if escape {
+				return false
+			}
+		}
+		return locks == 1 && uses == 3 // TryLock, Lock, Unlock: nothing else touches the mutex
+	}
+	return false
+}
+
+func collectAcquires(repo string) ([]acquireSite, error) {
+	fset := token.NewFileSet()
+	files, _ := filepath.Glob(filepath.Join(repo, "core/environment/*.go"))
+	more, _ := filepath.Glob(filepath.Join(repo, "core/*.go"))
+	files = append(files, more...)
+	sort.Strings(files)
+	var out []acquireSite
+	for _, fn := range files {
+		if strings.HasSuffix(fn, "_test.go") || strings.Contains(filepath.Base(fn), "verif_hook") {
+			continue
+		}
+		f, perr := parser.ParseFile(fset, fn, nil, 0)
+		if perr != nil {
+			return nil, perr
+		}
+		for _, d := range f.Decls {
+			fd, ok := d.(*ast.FuncDecl)
+			if !ok || fd.Body == nil {
+				continue
+			}
+			touches := false
+			ast.Inspect(fd.Body, func(n ast.Node) bool {
+				if se, ok := n.(*ast.SelectorExpr); ok && se.Sel.Name == "transitionMutex" {
+					touches = true
+				}
+				return true
+			})
+			if touches {
+				out = append(out, acquireSite{fn: fd.Name.Name, waits: acquireShape(fset, fd.Body)})
+			}
+		}
+	}
+	return out, nil
+}
+
 func genLocks(repo string) (string, error) {
 	events, writes, err := collect(repo)
+	if err != nil {
+		return "", err
+	}
+	acquires, err := collectAcquires(repo)
 	if err != nil {
 		return "", err
 	}
@@ -115,6 +228,13 @@ func genLocks(repo string) (string, error) {
 			b.WriteString(", ")
 		}
 		fmt.Fprintf(&b, "(%q, %q, %v)", s.fn, s.arg, s.under)
+	}
+	b.WriteString("]\n\n/-- every function of core/ and core/environment/ that touches `transitionMutex` (go/ast): (function, it acquires it as\n    `if !m.TryLock() { …; m.Lock(); … }; defer m.Unlock()` — the if-body being plain calls with no way out, so that a caller\n    who finds the mutex busy ALWAYS queues for it — and touches it nowhere else) -/\ndef mutexAcquireSites : List (String × Bool) := [")
+	for i, s := range acquires {
+		if i > 0 {
+			b.WriteString(", ")
+		}
+		fmt.Fprintf(&b, "(%q, %v)", s.fn, s.waits)
 	}
 	b.WriteString("]\n\nend Gen\n")
 	return b.String(), nil
